@@ -279,11 +279,18 @@ class TunnelHTTPConnection(ConnectionInterface):
                 connect_headers = merge_headers(
                     [(b"Host", target), (b"Accept", b"*/*")], self._proxy_headers
                 )
+                # The "target" extension overrides the target of the tunnelled
+                # request. It must not be applied to the CONNECT request itself.
+                connect_extensions = {
+                    key: value
+                    for key, value in request.extensions.items()
+                    if key != "target"
+                }
                 connect_request = Request(
                     method=b"CONNECT",
                     url=connect_url,
                     headers=connect_headers,
-                    extensions=request.extensions,
+                    extensions=connect_extensions,
                 )
                 connect_response = self._connection.handle_request(
                     connect_request
